@@ -509,16 +509,19 @@ def gen_large(rng, n, m):
 
 
 def gen_structured(rng, n):
-    """Two well separated point clouds with Euclidean costs: the network simplex needs many more pivots on such
-    geometric costs than on random ones (a few dozen points per side suffice to pass 5*(n+m) pivots)."""
-    d = 2
-    def cloud(cx):
-        return [[cx + rng.gauss(0, 1), rng.gauss(0, 1)] for _ in range(n)]
-    A = cloud(0.0) if rng.random() < 0.5 else cloud(0.0)[: n // 2] + cloud(8.0)[: n - n // 2]
-    B = cloud(8.0)[: n // 2] + cloud(0.0)[: n - n // 2]
-    Cm = [[math.sqrt(sum((a[k] - b[k]) ** 2 for k in range(d))) for b in B] for a in A]
+    """Geometric costs: two separated Gaussian point clouds in the plane with squared Euclidean (or Euclidean) cost.
+    The network simplex needs many more pivots on such costs than on random ones (a few dozen points per side suffice
+    to pass 5*(n+m) pivots), so an iteration budget that random costs never reach is reached here."""
+    sq = rng.random() < 0.7
+    off = rng.choice([3.0, 3.0, 8.0])
+    A = [[rng.gauss(0, 1), rng.gauss(0, 1)] for _ in range(n)]
+    B = [[rng.gauss(0, 1) + off, rng.gauss(0, 1) + off] for _ in range(n)]
+    def c(a, b):
+        d2 = (a[0] - b[0]) ** 2 + (a[1] - b[1]) ** 2
+        return d2 if sq else math.sqrt(d2)
+    Cm = [[c(a, b) for b in B] for a in A]
     return {"kind": "direct", "p": gen_masses(rng, n, "uniform"), "q": gen_masses(rng, n, "uniform"), "C": Cm,
-            "tags": ["uniform", "uniform", "two-clouds"], "layout": "C", "large": True}
+            "tags": ["uniform", "uniform", "two-clouds-sq" if sq else "two-clouds"], "layout": "C", "large": True}
 
 
 def run(ctx, replay=None):
@@ -529,7 +532,7 @@ def run(ctx, replay=None):
         return ctx.finish("proof")
     if not replay:
         shapes = [(300, 230)] if ctx.quick else [(300, 230), (257, 256), (200, 400)]
-        sizes = [60, 120] if ctx.quick else [60, 90, 120, 200]
+        sizes = [60, 120, 120] if ctx.quick else [60, 90, 120, 120, 200, 200]
         large_probe(ctx, [gen_large(ctx.rng, n, m) for n, m in shapes] + [gen_structured(ctx.rng, n) for n in sizes])
     big = 25 if ctx.quick else 40
     ncases = 220 if ctx.quick else 1500
